@@ -8,7 +8,7 @@ THEOREMS = ["Props.C08.c08_byline", "Props.C08.c08_solo_is_standalone", "Props.C
 def run(check, tier):
     import group_suite as S
 
-    n = 160 if tier == "quick" else 4000
+    n = 320 if tier == "quick" else 4000
     cases = [S.gen_case(check.seed, i) for i in range(n)]
     results = run_cases("group_suite", "case_group", cases, chunk=4)
     sizes = {}
